@@ -33,7 +33,12 @@ Inductive case :=
 (* Send(data) on a real stream, then Receive on the other end *)
 | CFrame (data : bytes) (obs : res (N * bytes))
 (* raw bytes written to the stream, then receiveWithLimit(limit) *)
-| CRecvRaw (limit : Z) (stream : bytes) (obs : res (N * bytes)).
+| CRecvRaw (limit : Z) (stream : bytes) (obs : res (N * bytes))
+(* real Send of an n-byte message (accepted?), then the real QuicClient.Receive
+   with the limit it applies itself: size returned, Ok only when the bytes are identical *)
+| CFrameBig (n : Z) (obs_send : bool) (obs_recv : res Z)
+(* a raw 6-byte header (version, announced size) and nothing behind it, then the real Receive *)
+| CRecvHeader (version : N) (announced : Z) (obs : res Z).
 
 Definition check (c : case) : bool :=
   match c with
@@ -51,4 +56,8 @@ Definition check (c : case) : bool :=
       | _ => res_class_eqb (@Err unit) obs
       end
   | CRecvRaw limit stream obs => res_eqb frame_eqb (rv_result (receive limit stream)) obs
+  | CFrameBig n snd_ok obs =>
+      Bool.eqb (send_accepts n) snd_ok &&
+      (if snd_ok then res_eqb Z.eqb (send_receive_size n) obs else true)
+  | CRecvHeader v a obs => res_eqb Z.eqb (receive_decision receive_limit v a 0) obs
   end.
